@@ -93,8 +93,21 @@ def run(prog, tier, extra=None):
         if mt:
             map_sites_through[b.path] = (b, mt)
 
+    def closure_bodies_under(path):
+        return [prog.bodies[p] for p in prog.bodies if p.startswith(path + "::{closure") and not prog.bodies[p].is_promoted]
+
     def map_blocks(b, kinds):
-        return {x[1] for x in map_sites_through.get(b.path, (b, []))[1] if x[3] in kinds}
+        out = {x[1] for x in map_sites_through.get(b.path, (b, []))[1] if x[3] in kinds}
+        # ... and calls that are handed a closure which does it (`txs.iter().flat_map(..).for_each(|input| { self.utxo_map.remove(..); })`)
+        touching = {cb.path for cb in closure_bodies_under(b.path) if any(x[3] in kinds for x in map_sites.get(cb.path, (cb, []))[1])}
+        if touching:
+            chb_ = Chaser(b)
+            for bb, t in b.calls():
+                for a in t.get("args", []):
+                    if any(y[0] == "agg" and y[1][0] == "closure" and (y[1][1] in touching or any(tp.startswith(y[1][1] + "::") for tp in touching))
+                           for y in walk(chb_.origin(a))):
+                        out.add(bb)
+        return out
 
     def unreleased_path(b, bb, depth=0):
         """a path from the removal at bb (or from the call at bb that removes without releasing) to a success exit that passes no
@@ -194,6 +207,18 @@ def run(prog, tier, extra=None):
                                 used_by_retain = True
             if used_by_retain and any(y[0] == "param" and y[1] >= 2 for y in walk(key)):
                 ok = "inside the retain closure over the pool: the key comes from the element being dropped"
+            if ok is None and parent is not None and depth < 3 and any(y[0] == "param" and y[1] >= 2 for y in walk(key)):
+                # a closure handed to for_each / map / flat_map ..: its element comes from what the parent iterates over
+                pch = Chaser(parent)
+                for pbb, pt in parent.calls():
+                    last = (call_name(pt) or "").rsplit("::", 1)[-1]
+                    if last not in ("for_each", "map", "flat_map", "filter", "filter_map", "inspect", "try_for_each", "fold", "any", "all") or not pt["args"]:
+                        continue
+                    if not any(y[0] == "agg" and y[1][0] == "closure" and y[1][1] == b.path for a in pt["args"][1:] for y in walk(pch.origin(a))):
+                        continue
+                    r = key_ok(parent, pch.origin(pt["args"][0]), depth + 1)
+                    if r:
+                        ok = "element of an iteration in the enclosing body: " + r
         # block created from the pool and awaited: (poll(..Block::create..) as Ready).0 ...
         if ok is None and any(y[0] == "call" and y[1] == "std::future::Future::poll" and
                               (b.term(y[3]).get("res") or "").startswith(CORE + "consensus::block::Block::create") for y in walk(key)):
